@@ -75,7 +75,13 @@ class Lay:
 
 
 class Abort(Exception):
-    pass
+    """the operation violates a documented precondition: it must end in an abort (XASSERT / XABORT)"""
+    outcome = "ABORT"
+
+
+class Throws(Abort):
+    """the operation is an error that the code reports by a C++ exception (never silently)"""
+    outcome = "EXC"
 
 
 class Invalid(Exception):
@@ -151,11 +157,11 @@ class Ref:
 
     # ---- operations ------------------------------------------------------------------------
     def need_dead(self, a):
-        if not (0 <= a < NSLOT) or self.slots[a] is not None:
+        if not (0 <= a < len(self.slots)) or self.slots[a] is not None:
             raise Invalid("slot %d not free" % a)
 
     def need_alive(self, a):
-        if not (0 <= a < NSLOT) or self.slots[a] is None:
+        if not (0 <= a < len(self.slots)) or self.slots[a] is None:
             raise Invalid("slot %d not alive" % a)
         return self.slots[a]
 
@@ -169,6 +175,11 @@ class Ref:
 
     def apply(self, t):
         op = t[0]
+        if op == "SLOTS":
+            if any(c is not None for c in self.slots):
+                raise Invalid("SLOTS must come first")
+            self.slots = [None] * int(t[1])
+            return
         if op == "T2":
             # the tuple operation must be equivalent to its two component operations, in order
             self.apply(t[2])
@@ -393,9 +404,9 @@ class Ref:
         elif op == "lay":
             l, s = a
             ca = self.need_alive(s)
-            if not (0 <= l < NLAY) or ca.kind < 2 or ca.kind > 4:
+            if not (0 <= l < NLAY) or ca.kind not in (2, 3, 4, 6):
                 raise Invalid("lay")
-            lk = 1 if ca.kind == 4 else 0
+            lk = 1 if ca.kind == 4 else 2 if ca.kind == 6 else 0
             old = self.lays[l]
             if old is not None and (old.lk != lk or old.it != ca.it):
                 raise Invalid("lay types")
@@ -410,12 +421,15 @@ class Ref:
                 k, dt = ca.kind, ca.dt
                 if ca.it != L.it:
                     raise Invalid("mlay index type")
-            if k not in (2, 3, 4) or ((k == 4) != (L.lk == 1)):
+            if k not in (2, 3, 4, 6) or (1 if k == 4 else 2 if k == 6 else 0) != L.lk:
                 raise Invalid("mlay kind")
             need = 5 if k == 4 else 4
             if len(L.sidx) < need:
-                raise Invalid("layout of a moved-from matrix")
-            ne = L.sidx[3] if k == 2 else L.sidx[3] * 4 if k == 3 else L.sidx[1] * L.sidx[4]
+                # the layout of a moved-from / cleared matrix, or a moved-from layout object, has no scalars: the
+                # constructor / assignment reads `_scalar_index.at(..)` and reports std::out_of_range (a reported
+                # error, not a silent one; nothing was acquired before, so nothing leaks)
+                raise Throws("matrix from a layout without scalars")
+            ne = L.sidx[3] if k in (2, 6) else L.sidx[3] * 4 if k == 3 else L.sidx[1] * L.sidx[4]
             c = Cont(k, dt, L.it, L.sidx)
             c.inds = [self.share(e) for e in L.inds]
             c.elems = [fresh(iota(fill, ne), esz(dt))]
@@ -483,7 +497,7 @@ class Ref:
         return out
 
 
-OP_ARITY = {"lmove": 2, "lvec": 1, "copy": 3, "mk": 6, "new": 6, "mat": 9, "band": 6, "adopt": 2, "range": 4, "clone": 4, "conv": 4, "xconv": 2, "move": 2,
+OP_ARITY = {"SLOTS": 1, "lmove": 2, "lvec": 1, "copy": 3, "mk": 6, "new": 6, "mat": 9, "band": 6, "adopt": 2, "range": 4, "clone": 4, "conv": 4, "xconv": 2, "move": 2,
             "clear": 1, "destroy": 1, "format": 2, "write": 5, "lay": 2, "mlay": 5, "ldrop": 1, "end": 0}
 
 
@@ -548,16 +562,17 @@ def oracle(case, out):
         try:
             ref.apply(t)
         except Abort as e:
-            expect_abort = (k, t, str(e))
+            expect_abort = (k, t, str(e), e.outcome)
             break
         except Invalid as e:
             return None          # not a history of the op language; nothing to judge
-        exp_steps.append(ref.render())
+        if t[0] != "SLOTS":
+            exp_steps.append(ref.render())
     if expect_abort is not None:
-        if out == "ABORT":
+        if out == expect_abort[3]:
             return None
-        return "step %d (%s): a documented precondition violation (%s) must be reported by an abort, got: %s" % (
-            expect_abort[0], " ".join(flat(expect_abort[1])), expect_abort[2], out[:120])
+        return "step %d (%s): a documented precondition violation (%s) must be reported by %s, got: %s" % (
+            expect_abort[0], " ".join(flat(expect_abort[1])), expect_abort[2], expect_abort[3], out[:120])
     if out.split(":")[0] in ("ABORT", "EXC", "TIMEOUT", "SIGNAL", "SANITIZER", "EXIT") or out.startswith("BAD-OP"):
         if out == "EXIT:1":
             return "MemoryPool::finalize() found leaked chunks after all containers were destroyed (exit 1)"
@@ -565,6 +580,8 @@ def oracle(case, out):
     parts = out.split(" ; ")
     if parts[0] != "H" or len(parts) - 1 != len(exp_steps):
         return "output has %d steps, expected %d" % (len(parts) - 1, len(exp_steps))
+    if ops and ops[0][0] == "SLOTS":
+        ops = ops[1:]
     for k, (got, exp) in enumerate(zip(parts[1:], exp_steps)):
         g = [";"] + got.split()
         if exp is None:
@@ -695,12 +712,12 @@ def propose(rng, ref, selfbias=0.0):
         if dead:
             return ["xconv", S(rng.choice(dead)), S(b)]
         return None
-    if r < 0.67 and cb.kind >= 2:
+    if r < 0.67 and cb.kind in (2, 3, 4, 6):
         return ["lay", S(rng.randrange(NLAY)), S(b)]
     if r < 0.74 and lal:
         l = rng.choice(lal)
         L = ref.lays[l]
-        kinds = [4] if L.lk == 1 else [2, 3]
+        kinds = [4] if L.lk == 1 else [6] if L.lk == 2 else [2, 3]
         cand = [s for s in alive if ref.slots[s].kind in kinds and ref.slots[s].it == L.it]
         if cand and rng.random() < 0.4:
             return ["mlay", S(rng.choice(cand)), S(l), "0", "0", S(rng.randrange(200, 290))]
@@ -820,6 +837,8 @@ CORPUS = [
     "mat 0 2 0 0 2 3 2 10 0 lay 0 0 lmove 1 0 lvec 0 lvec 1 mlay 1 1 2 0 5 lmove 0 1 lmove 0 0 lay 1 0 lmove 0 1 lvec 0 ldrop 0 ldrop 1 destroy 0 destroy 1 end",
     "band 0 1 1 3 2 4 lay 2 0 lay 3 0 lmove 3 2 lvec 1 mlay 1 3 4 1 7 ldrop 3 ldrop 2 destroy 0 destroy 1 end",
     "mat 0 2 0 0 2 3 2 10 0 lay 0 0 lmove 1 0 ldrop 0 ldrop 1 write 0 1 0 0 1 destroy 0 end",
+    # CSCR layouts (lt_cscr): take, matrix from layout (fresh / assignment), layout moves
+    "mk 0 6 0 1 3 10 lay 0 0 mlay 1 0 6 1 5 lmove 1 0 mk 2 6 1 1 2 40 mlay 2 1 0 0 7 clone 3 1 0 0 destroy 0 ldrop 1 ldrop 0 destroy 2 destroy 1 destroy 3 end",
     # cross-type clone (all modes) into a live container
     "mat 0 2 0 0 2 2 1 3 1 mat 1 2 1 1 1 1 1 7 0 clone 1 0 0 5 clone 1 0 2 5 clone 1 0 1 5 clone 1 0 4 5 destroy 0 destroy 1 end",
 ]
@@ -1035,6 +1054,27 @@ def tuple_cases():
     return out
 
 
+def boundary_cases(seed):
+    """pool at boundary sizes: >= 256 live arrays at once, one array with >= 256 owners (reference counter 258 through
+    257 shallow clones), arrays of 65536 elements (shared, deep-copied, viewed at the very end)"""
+    rng = random.Random(seed)
+    out = []
+    n = 260
+    order = list(range(n))
+    rng.shuffle(order)
+    out.append(" ".join(["SLOTS 300"] + ["new %d %d %d %d %d %d" % (i, i % 2, i % 2, (i // 2) % 2, 1 + i % 3, i)
+                                        for i in range(n)] + ["destroy %d" % i for i in order] + ["end"]))
+    order = list(range(n))
+    rng.shuffle(order)
+    ops = ["SLOTS 300", "new 0 0 0 0 2 5"] + ["clone %d 0 0 0" % i for i in range(1, n)] + ["write 17 0 0 1 9"]
+    half = order[:n // 2]
+    ops += ["destroy %d" % i for i in half] + ["format %d 3" % order[-1]] + ["destroy %d" % i for i in order[n // 2:]]
+    out.append(" ".join(ops + ["end"]))
+    out.append("new 0 0 0 0 65536 1 clone 1 0 0 0 clone 2 0 3 0 write 1 0 0 65535 7 range 3 0 4 65532 destroy 0 "
+               "conv 4 2 1 1 destroy 3 destroy 1 destroy 2 destroy 4 end")
+    return out
+
+
 def nontrivial(case):
     """a history in which an array with >= 2 owners loses an owner that is not the youngest live container"""
     ops = split_ops(case)
@@ -1053,16 +1093,16 @@ def nontrivial(case):
                 continue
             if t[0] in ("destroy", "clear", "move", "conv", "clone", "mlay", "xconv"):
                 s = int(t[1])
-                c = ref.slots[s] if 0 <= s < NSLOT else None
+                c = ref.slots[s] if 0 <= s < len(ref.slots) else None
                 if c is not None and not c.foreign:
                     cnt = ref.owners()
                     shared = any(e[0] is not None and cnt.get(id(e[0]), 0) >= 2 for e in c.elems + c.inds)
-                    youngest = max((birth.get(x, 0) for x in range(NSLOT) if ref.slots[x] is not None), default=0)
+                    youngest = max((birth.get(x, 0) for x in range(len(ref.slots)) if ref.slots[x] is not None), default=0)
                     if shared and birth.get(s, 0) < youngest:
                         return True
             before = [x is not None for x in ref.slots]
             ref.apply(t)
-            for x in range(NSLOT):
+            for x in range(len(ref.slots)):
                 if ref.slots[x] is not None and not before[x]:
                     birth[x] = clock
     except (Abort, Invalid, IndexError):
@@ -1171,6 +1211,12 @@ def main(argv):
         vlib.Stream("exhaustive-small", exh, [binary], drv, oracle=oracle, canon=canon,
                     nontrivial=lambda c: True, describe=exh_describe, signature=signature),
     ]
+    bnd = boundary_cases(args.seed)
+    streams.append(vlib.Stream("pool-boundary", bnd, [binary], drv, oracle=oracle, canon=canon,
+                               nontrivial=lambda c: True, describe=lambda c: ["boundary"], signature=signature))
+    if not quick:
+        streams.append(vlib.Stream("pool-boundary-asan", bnd, [asan], drv, oracle=oracle, canon=canon,
+                                   nontrivial=lambda c: False, describe=lambda c: ["boundary"], signature=signature))
     if not quick:
         streams.append(vlib.Stream("exhaustive-small-asan", exh, [asan], drv, oracle=oracle, canon=canon,
                                    nontrivial=lambda c: False, describe=exh_describe, signature=signature))
@@ -1186,7 +1232,8 @@ def main(argv):
             "move, clear, destroy, format, range, adopt, dense<->blocked, layout take/make/drop, incl. self and aborting "
             "ops) and every sequence of length <= 4 after the creation of 1 matrix over 2 layout slots with all special "
             "members of SparseLayout (take, move construction/assignment/self-move, std::vector and by-value-member round "
-            "trips, matrix from layout, drop); full pool+container state compared after every "
+            "trips, matrix from layout, drop); plus 3 boundary-size histories (260 live arrays, reference counter 258 "
+            "for one array, 65536-element arrays); full pool+container state compared after every "
             "op; non-trivial = an array with >= 2 owners loses an owner that is not the youngest live container")
     rc = vlib.run_pipeline(PROP, args.tier, args.seed, lean, streams, t0, assumptions=[
         "chunk identity up to renaming by first appearance (malloc addresses are not modelled)",
